@@ -5,6 +5,7 @@ import (
 	"io"
 
 	"github.com/ipfs/go-cid"
+	"github.com/ipld/go-car/v2/index"
 	"github.com/ipld/go-car/v2/internal/carv1/util"
 	"github.com/ipld/go-ipld-prime"
 	"github.com/ipld/go-ipld-prime/linking"
@@ -84,7 +85,9 @@ func VerifH_C15_CountingVsTeeing() {
 
 	cls, counter := CountingLinkSystem(base)
 	out := &vW{}
-	tls, tracker := TeeingLinkSystem(base, out, initial, multicodec.CarMultihashIndexSorted)
+	codecs := []multicodec.Code{multicodec.CarMultihashIndexSorted, multicodec.CarIndexSorted, index.CarIndexNone}
+	codec := codecs[vChoose("indexCodec", 3)]
+	tls, tracker := TeeingLinkSystem(base, out, initial, codec)
 
 	var want []byte
 	var wantOff [2]uint64
@@ -113,9 +116,13 @@ func VerifH_C15_CountingVsTeeing() {
 	vAssert("tee-bytes-are-distinct-frames-in-first-load-order", vBytesEq(out.buf, want))
 	vAssert("tee-size-is-bytes-written", tracker.Size() == initial+uint64(len(out.buf)))
 	idx, err := tracker.Index()
-	vAssert("tee-index", err == nil)
+	if codec == index.CarIndexNone {
+		vCover("no-index-codec", true)
+	} else {
+		vAssert("tee-index", err == nil)
+	}
 	for k, b := range blocks {
-		if !seen[k] {
+		if !seen[k] || codec == index.CarIndexNone {
 			continue
 		}
 		found := false
